@@ -69,7 +69,7 @@ def eval_fn(seq, cfg, names, out, armed, prop, select, entry=0, stream='enum'):
     """Evaluate one Seq in fnmatch mode.  `select(name)` says whether the name belongs to `prop`'s domain."""
     ext = cfg.get('ext', True)
     if ext:
-        text = A.render_loose(seq) if cfg.get('loose') else A.render(seq)
+        text = A.render_loose(seq) if cfg.get('loose') else A.render(seq, True, cfg.get('variant', 0))
         rseq = seq
     else:
         rseq = A.flatten_ext(seq)
@@ -127,7 +127,7 @@ def _shape(seq):
 def eval_path(pp, cfg, paths, out, armed, prop, select, entry=0, stream='enum'):
     """Evaluate one PathPat in glob mode (no REALPATH)."""
     ext = cfg.get('ext', True)
-    text = A.render_path(pp, True, loose=bool(cfg.get('loose')), sep='\\/' if cfg.get('escsep') else '/')
+    text = A.render_path(pp, True, loose=bool(cfg.get('loose')), sep='\\/' if cfg.get('escsep') else '/', variant=cfg.get('variant', 0))
     fl = gl_flags(cfg)
     if cfg.get('pathlib'):
         # PurePath normalises its argument; judge the normalised spelling
@@ -189,7 +189,7 @@ def replay_case(case):
     if case['mode'] == 'fn':
         ext = cfg.get('ext', True)
         rseq = obj if ext else A.flatten_ext(obj)
-        text = (A.render_loose(obj) if cfg.get('loose') else A.render(obj)) if ext else A.render_plain(rseq)
+        text = (A.render_loose(obj) if cfg.get('loose') else A.render(obj, True, cfg.get('variant', 0))) if ext else A.render_plain(rseq)
         fl = fn_flags(cfg)
         try:
             got = [bool(F.fnmatch(nm, text, flags=fl)), nm in F.filter([nm], text, flags=fl),
@@ -198,7 +198,7 @@ def replay_case(case):
             return False, {'pattern': text, 'error': list(util.exc_bucket(e))}
         v = R.name_verdict(rseq, nm, bool(cfg.get('dot')), bool(cfg.get('icase')) and not cfg.get('case'))
     else:
-        text = A.render_path(obj, True, loose=bool(cfg.get('loose')), sep='\\/' if cfg.get('escsep') else '/')
+        text = A.render_path(obj, True, loose=bool(cfg.get('loose')), sep='\\/' if cfg.get('escsep') else '/', variant=cfg.get('variant', 0))
         fl = gl_flags(cfg)
         try:
             if cfg.get('pathlib'):
